@@ -6,6 +6,9 @@ CLAIMED = {
     "C03": {"engine": "kani", "design_ref": "DESIGN.md §4 C03", "technique": "bounded model checking (Kani/CBMC) of the real serializer+deserializer over symbolic values",
             "text": "For every value of each fixed-width AMQP primitive (whole bit-width domain) and for strings/symbols/binaries/lists/maps/arrays with symbolic content at fixed small shapes, the solver shows decode(encode(x)) == x on the real serde_amqp code; a counterexample is replayed natively before it is reported. Bounded: shapes and lengths are listed per harness; untyped Value trees and large composites are outside.",
             "note": _NOTE},
+    "C04": {"engine": "kani", "design_ref": "DESIGN.md §4 C04", "technique": "bounded model checking (Kani/CBMC): every byte string of a fixed length through typed decoder entry points",
+            "text": "For EVERY byte string of the stated length (7-14 bytes, all 256^N values at once) fed to the real Deserializer through its typed serde entry points (primitives, seq/tuple/map/struct/enum/option headers, list/array/map element pulls, described-list/-map access as a derive-generated visitor does), the solver shows: no panic, no arithmetic overflow, no out-of-bounds access, element pulls terminate within what the bytes can hold, and decode-Ok implies re-encode/decode stability for fixed-width types. Longer inputs, untyped Value trees, stack depth and allocation proportionality are outside.",
+            "note": _NOTE},
     "C05": {"engine": "kani", "design_ref": "DESIGN.md §4 C05", "technique": "bounded model checking (Kani/CBMC) against a spec oracle transcribed from AMQP 1.0 part 1",
             "text": "The solver shows that the bytes written by the real Serializer are accepted by an independent spec oracle as an encoding of exactly the symbolic value, and that every spec-permitted width variant built by the oracle decodes to the same value, for all values inside the per-harness bounds.",
             "note": _NOTE},
@@ -21,7 +24,6 @@ NOT_APPLICABLE = {
     "C16": "needs recv/send futures polled and dropped at each await; every await there is a tokio mpsc/select! operation (Kani ICE)",
     "C18": "transaction manager state is an IndexMap keyed by transaction id (hashing), ids from OS RNG, commit replays frames through awaits on session channels: nothing solver-executable",
     # not built yet (will be claimed once their checks exist)
-    "C04": "check under construction in this session (see DESIGN.md §4 C04)",
     "C06": "check under construction in this session (see DESIGN.md §4 C06)",
     "C07": "check under construction in this session (see DESIGN.md §4 C07)",
     "C08": "check under construction in this session (see DESIGN.md §4 C08)",
